@@ -298,8 +298,8 @@ PROPS = {
    "ubj_parser_reuse_any / ubj_parser_reuse_chunks: after any history of grammatical documents the UBJSON parser is idle up to its event log and the scratch "
    "field valueType, and for EVERY probe byte string (malformed and truncated included, any chunking) returns the verdict and events of a new parser "
    "(frame theorem over every reachable state without a live typed-array header). Unfolder: Props/C14 reset_then_setTarget_is_fresh; fold iterator: ops fold-seq, foldopts.",
-   "Kernel-checked for encoder and parser of all three formats, for the three pull decoders (C18: every Next after the first is a reuse; the stream theorems give each document exactly its events) and for the Unfolder (C14 reset_then_setTarget_is_fresh, typed_complete_is_idle); fold iterator by mirror + correspondence + oracle.",
-   partial="fold iterator: the mirror has no registry state (reuse = fresh holds by construction there); the tie is the correspondence of fold-seq / foldopts histories; JSON parser: probes restricted to grammatical texts"),
+   "Kernel-checked for encoder and parser of all three formats — parsers for EVERY probe byte string, grammatical or not (JSON json_parser_reuse_any / json_parse_as_new, CBOR cbor_parser_frame / cbor_parser_reuse_any, UBJSON ubj_parser_frame / ubj_parser_reuse_any) —, for the three pull decoders (PropsJsonAny / PropsCborAny / PropsUbjD: after k successful Next calls the decoder behaves on ANY rest of the stream as a NEW decoder over the rest) and for the Unfolder (C14 reset_then_setTarget_is_fresh, typed_complete_is_idle); fold iterator by mirror + correspondence + oracle.",
+   partial="fold iterator: the mirror has no registry state (reuse = fresh holds by construction there); the tie is the correspondence of fold-seq / foldopts histories; UBJSON decoder: histories of grammatical items within the model's fuel"),
  "C18": P("DESIGN.md 7 C18",
    "Lean 4 proof (CBOR, JSON and UBJSON decoders, byte-slice and reader-driven: one value per Next then clean EOF for every split into reads; truncation => error; read-size independence on arbitrary bytes; termination) + differential correspondence over read scripts",
    "reader_decoder_stream / reader_decoder_truncated(_one) / reader_chunking_independent / reader_eq_bytes_decoder / "
